@@ -224,6 +224,23 @@ class FnText:
             i += 1
         raise Unsupported(f'{self.name}: @ret: no return type')
 
+    # T13 ------------------------------------------------------------------
+    def strip_async(self):
+        """T13: `async fn` -> `fn`, every `.await` dropped.  The generated function is the sequential reading of
+        the handler: suspension points (only `RwLock::read().await` / `client.publish_diagnostics(..).await` in
+        the providers) become plain calls of the corresponding shim.  Interleavings at suspension points are
+        not modelled (listed as not covered)."""
+        n = 0
+        for i in range(len(self.s) - 1):
+            t = self.stok(i)
+            if t.kind == 'ident' and t.text == 'async' and t.start < self.body_open and self.stok(i + 1).text == 'fn':
+                self.edits.append((t.start, self.stok(i + 1).start, '', ('T13', 'async')))
+                n += 1
+            if t.kind == 'punct' and t.text == '.' and self.stok(i + 1).kind == 'ident' and self.stok(i + 1).text == 'await':
+                self.edits.append((t.start, self.stok(i + 1).end, '', ('T13', 'await')))
+        if n == 0:
+            raise Unsupported(f'{self.name}: @stripasync: not an async fn')
+
     # T5 -------------------------------------------------------------------
     def rename(self, old, new):
         n = 0
@@ -839,6 +856,8 @@ def process_extract(block_text, tmpl_path, tmpl_line, report):
             ft.closure_let(mm.group(1), mm.group(2), origin)
         elif d == 'recv':
             ft.recv_mut()
+        elif d == 'stripasync':
+            ft.strip_async()
         elif d == 'rename':
             a, b = arg.split()
             ft.rename(a, b)
